@@ -25,6 +25,7 @@ import WpModel.Lemmas.LineFloats
 import WpModel.Lemmas.LineFloatsInline
 import WpModel.Lemmas.InlineNoWrap
 import WpModel.Lemmas.InlineSource
+import WpModel.Lemmas.InlineSourceText
 
 namespace Wp.C09
 open Wp Wp.Py Wp.Pango Wp.LB Wp.C09L
@@ -645,32 +646,22 @@ example : WS.nowrap.breakInside = false ∧ WS.pre.breakInside = false ∧ WS.pr
 property for the non-wrapping `white-space` values, at document level): whenever a line box of a
 paragraph of nested inline boxes is followed by another line, the character just before the resume
 point — found by following the `resume_at` path down the box tree — is a preserved line break.  For
-every nesting, spacing, width and text; `no_wrap_breaks_only_at_newline` is the same statement for one
-text box.  (Ingredients: no opportunity between two children, `no_rebreak_without_wrap`, and the dead
-"put the child on the next line" branch.)
-
-Partial: the hypothesis `hu` says that no inline box carries `trailing_collapsible_space` (no inline box
-ends with a text box that white-space collapsing emptied, `aaa <b> </b>bbb`).  Without it the statement
-is false of the code under `nowrap`: after such a box `last_letter is True` and the
-`white_space in ('pre', 'nowrap')` test — an `elif` — is skipped, the collapsed space becomes a break
-opportunity (`Witness.C09.nowrap_breaks_after_collapsed_space`, finding
-nowrap-breaks-after-collapsed-space).  Under `pre` nothing collapses, so `hu` always holds there. -/
-theorem nested_no_wrap_breaks_only_at_newline_partial (p : IR.Para) (hw : p.st.ws.textWrap = false)
-    (hu : LFIL.unflaggedL p.kids = true) (skip : Option IR.Skip)
+every nesting, spacing, width, text and every `trailing_collapsible_space` flag (full strength since
+fix fd6f32a: the collapsed space of `aaa <b> </b>bbb` is no break opportunity under `nowrap` any more;
+was `nested_no_wrap_breaks_only_at_newline_partial`, regression of the old witness:
+`Witness.C09.nowrap_does_not_break_after_collapsed_space`); `no_wrap_breaks_only_at_newline` is the
+same statement for one text box.  (Ingredients: no opportunity between two children,
+`no_rebreak_without_wrap`, and the dead "put the child on the next line" branch.) -/
+theorem nested_no_wrap_breaks_only_at_newline (p : IR.Para) (hw : p.st.ws.textWrap = false) (skip : Option IR.Skip)
     (y : Rat) (first : Bool) (l : IR.OutLine) (h : IR.nextLine p skip y first = .ok (some l)) (r : IR.Skip)
     (hr : l.resume = some r) : LFIL.charBefore (.box 0 0 false p.kids) r = some '\n' :=
-  LFIL.nextLine_no_wrap p hw hu skip y first l h r hr
+  LFIL.nextLine_no_wrap p hw skip y first l h r hr
 
-/-- `<span>aaa bbb\n<b>ccc ddd</b></span>` under `pre` in 40px: two lines `aaa bbb` (70 wide, overflowing:
-no break at the space) and `ccc ddd`; the first resume point is `{0: {1: None}}`... the offset after the
-newline inside the first text box of the span -/
 def prePara : IR.Para :=
   { st := { ws := .pre, wb := .normal, ow := .normal, fs := 10 }
     kids := [.box 0 0 false [.text "aaa bbb\n".toList, .box 0 0 false [.text "ccc ddd".toList]]]
     lineHeight := 10, cbx := 0, width := 40, indent := 0
     align := { alignAll := .start, alignLast := none, ws := .pre, rtl := false }, y := 0 }
-
-example : LFIL.unflaggedL prePara.kids = true := by decide
 
 example : (IR.nextLine prePara none 0 true).toOption.map
     (fun o => o.map (fun l => (l.w, l.resume.map (fun r => LFIL.charBefore (.box 0 0 false prePara.kids) r)))) =
@@ -718,6 +709,38 @@ theorem emptied_box_keeps_flag (ls rs : Rat) (deco lcs : Bool) :
     IS.iibBox (.box ls rs deco [.text [] lcs]) = if lcs then .flagged (.box ls rs deco []) else .box ls rs deco [] :=
   IS.emptied_box_keeps_flag ls rs deco lcs
 
+/-- **what white-space processing leaves (1): no preserved line break under `normal` / `nowrap`.**  For
+every source text, the text `process_whitespace` puts into the text box (`IS.processedText`, the text of
+`IS.pw`: `IS.pw_text`) holds no newline — C08's theorem on `processText`, carried through the
+code-point / character coding of the model. -/
+theorem processed_text_no_newline (ws : WS) (h : ws = .normal ∨ ws = .nowrap) (t : Text) (f : Bool) :
+    ∀ c ∈ IS.processedText ws t f, c ≠ '\n' :=
+  IS.processed_no_newline ws h t f
+
+/-- **what white-space processing leaves (2): single spaces under every collapsing value.**  Two
+consecutive spaces never reach `split_first_line`: with (1), the words of the text box are separated
+by single spaces — the shape (`Canonical`, up to one leading / trailing space removed by
+`skip_first_whitespace` / `remove_last_whitespace`) on which `greedy` and `heuristic_transparent` are
+proved. -/
+theorem processed_text_no_double_space (ws : WS) (h : ws.spaceCollapse = true) (t : Text) (f : Bool) (i : Nat)
+    (hi : (IS.processedText ws t f)[i]? = some ' ') : (IS.processedText ws t f)[i + 1]? ≠ some ' ' :=
+  IS.processed_no_double_space ws h t f i hi
+
+/-- **from the source to the line under `nowrap`**: whatever the source text of a text box and the
+available width, `split_first_line` puts all of the processed text on one line. -/
+theorem nowrap_source_single_line (heur : Bool) (st : Style) (hws : st.ws = .nowrap) (t : Text) (f : Bool)
+    (maxWidth : MaxW) (a b : Bool) (r : Res)
+    (h : splitFirstLineH heur st (IS.processedText .nowrap t f) maxWidth a b = .ok r) :
+    r = { length := (IS.processedText .nowrap t f).length, resume := none,
+          width := ((IS.processedText .nowrap t f).length : Rat) * st.fs, text := IS.processedText .nowrap t f } :=
+  IS.nowrap_source_single_line heur st hws t f maxWidth a b r h
+
+example : IS.processedText .nowrap "aa  \n bb\ncc ".toList false = "aa bb cc ".toList ∧
+    IS.processedText .preLine "aa  \n bb   cc".toList true = "aa\nbb cc".toList ∧
+    (splitFirstLine { ws := .nowrap, wb := .normal, ow := .normal, fs := 10 }
+      (IS.processedText .nowrap "aa  \n bb\ncc ".toList false) (.fin 30) true false).toOption.map (·.resume) = some none := by
+  decide +kernel
+
 /-- the source `aaa <b> </b>bbb` under `white-space: normal`: the space of `<b>` collapses with the one
 before it, the emptied text box is removed and the empty `<b>` carries `trailing_collapsible_space`
 (`^`) — the break opportunity `split_inline_box` uses (seed C09-8 loses the flag on boxes left without
@@ -741,11 +764,9 @@ def collapsedPara : IR.Para :=
 
 example : (IR.paragraph collapsedPara).toOption.map (fun ls => ls.map (·.w)) = some [40, 30] := by decide +kernel
 
-/-- without collapsing nothing is emptied or flagged: under `pre` the same source keeps its three spaces,
-and `nested_no_wrap_breaks_only_at_newline_partial` applies -/
+/-- without collapsing nothing is emptied or flagged: under `pre` the same source keeps its three spaces -/
 example : IS.renderL (IS.lineKids .pre [.text "aaa ".toList, .box 0 0 false [.text " ".toList], .text "bbb".toList]) =
-      "\"aaa \"[\" \"]\"bbb\"".toList ∧
-    LFIL.unflaggedL (IS.lineKids .pre [.text "aaa ".toList, .box 0 0 false [.text " ".toList], .text "bbb".toList]) = true := by
+      "\"aaa \"[\" \"]\"bbb\"".toList := by
   decide +kernel
 
 end Wp.C09
